@@ -487,6 +487,9 @@ func (bh *Header) AddReference(r *Reference) error {
 		} else if !equalRefs(r, &Reference{id: -1, name: er.name, lRef: er.lRef}) {
 			return errDupReference
 		}
+		if r.owner != nil {
+			return errUsedReference
+		}
 		if r.md5 == "" {
 			r.md5 = er.md5
 		}
